@@ -757,6 +757,38 @@ def bool_edges(body, bb):
     return res
 
 
+def eq_variant_test(body, leaf, adt, all_variants):
+    """`x == Adt::V` / `x != Adt::V` (derived PartialEq): -> (variant, is_ne) if `leaf` is such a call, else None"""
+    if leaf.kind != "call":
+        return None
+    nm = callee_name(leaf.data)
+    is_eq = nm in ("<%s as std::cmp::PartialEq>::eq" % adt,)
+    is_ne = nm in ("<%s as std::cmp::PartialEq>::ne" % adt,)
+    if not (is_eq or is_ne) and nm in ("std::cmp::PartialEq::ne", "std::cmp::PartialEq::eq"):
+        ta = leaf.data["callee"].get("targs") or []
+        if ta and ta[0].get("adt") == adt:
+            is_ne = nm.endswith("::ne")
+            is_eq = not is_ne
+    if not (is_eq or is_ne):
+        return None
+    var = None
+    for a in leaf.data["args"]:
+        for l2 in trace(body, a):
+            if l2.kind == "const":
+                ev = l2.data.get("enum_variant")
+                if ev in all_variants:
+                    var = ev
+                v = op_const(l2.data) or ""
+                for m in all_variants:
+                    if v.endswith("::" + m):
+                        var = m
+            if l2.kind == "aggregate" and l2.data["agg"]["k"] == "adt" and l2.data["agg"]["adt"] == adt:
+                var = l2.data["agg"]["variant"]
+    if var is None:
+        return None
+    return var, is_ne
+
+
 def switches(body, live_only=True):
     live = body.live_blocks() if live_only else None
     for bb, blk in enumerate(body.blocks):
